@@ -4,6 +4,7 @@ import OtelVerif.Model.C02Check
 import OtelVerif.Lemmas.C02
 import OtelVerif.Lemmas.C02Live
 import OtelVerif.Lemmas.C02P
+import OtelVerif.Lemmas.C02Cond
 /-!
 # C02 — sending queue: exactly-once hand-off, FIFO, bounded size, no lost wake-ups
 
@@ -666,6 +667,175 @@ theorem C02_check_fifo_sound (tr : List (List Nat × List Nat)) (acc handed q ac
       refine ih (acc ++ a) (handed ++ h) qn ?_ hrun
       rw [← h0]; simp only [List.append_assoc]; rw [fifoStep_sound _ _ _ _ ha]
     · cases hrun
+
+/-! ## soundness of the remaining oracle clauses (`Model/C02Check.lean`): what the driver's verdict is computed
+from implies the property's clause on the observed values, in the same shape as the LTS theorems above -/
+
+theorem C02_check_size_sound (persistent : Bool) (cap size sum : Int) (none : Bool)
+    (h : Check.sizeClause persistent cap size sum none = true) :
+    0 ≤ size ∧ size ≤ cap ∧ (persistent = false → size = sum) ∧
+    (persistent = true → size ≤ sum ∧ (none = true → size = 0)) := by
+  unfold Check.sizeClause at h
+  cases persistent <;> cases none <;> simp at h <;> simp <;> omega
+
+theorem C02_check_refusal_sound_memory (block : Bool) (cap sizeBefore el : Int) (st : String)
+    (h : Check.refusalClause false block cap sizeBefore el st = true) :
+    (st = "full" ↔ (block = false ∧ 0 < el ∧ el ≤ cap ∧ sizeBefore + el > cap)) ∧
+    (st = "inv" ↔ el < 0) ∧ (st = "big" ↔ (0 < el ∧ el > cap)) := by
+  have d1 : ("full" : String) ≠ "inv" := by decide
+  have d2 : ("full" : String) ≠ "big" := by decide
+  have d3 : ("inv" : String) ≠ "big" := by decide
+  have d4 : ("full" : String) ≠ "" := by decide
+  have d5 : ("inv" : String) ≠ "" := by decide
+  have d6 : ("big" : String) ≠ "" := by decide
+  unfold Check.refusalClause Check.expectedRefusal at h
+  simp only [Bool.false_eq_true, if_false] at h
+  by_cases h0 : el = 0
+  · simp [h0] at h
+    obtain ⟨⟨a, b⟩, c⟩ := h
+    subst h0
+    refine ⟨by simp [a], by simp [b], by simp [c]⟩
+  · by_cases h1 : el < 0
+    · simp [h0, h1] at h
+      subst h
+      refine ⟨by simp [d1.symm]; intros; omega, by simp [h1], by simp [d3]; intros; omega⟩
+    · by_cases h2 : el > cap
+      · simp [h0, h1, h2] at h
+        subst h
+        refine ⟨by simp [d2.symm]; intros; omega, by simp [d3.symm]; omega, by simp; omega⟩
+      · by_cases h3 : sizeBefore + el > cap
+        · cases block
+          · simp [h0, h1, h2, h3] at h
+            subst h
+            refine ⟨by simp; omega, by simp [d1]; omega, by simp [d2]; intros; omega⟩
+          · simp [h0, h1, h2, h3] at h
+            obtain ⟨⟨a, b⟩, c⟩ := h
+            refine ⟨by simp [a], by simp [b]; omega, by simp [c]; intros; omega⟩
+        · simp [h0, h1, h2, h3] at h
+          obtain ⟨⟨a, b⟩, c⟩ := h
+          refine ⟨by simp [a]; intros; omega, by simp [b]; omega, by simp [c]; intros; omega⟩
+
+theorem C02_check_refusal_sound_persistent (block : Bool) (cap sizeBefore el : Int) (st : String)
+    (h : Check.refusalClause true block cap sizeBefore el st = true) :
+    (st = "full" ↔ (block = false ∧ sizeBefore + el > cap)) ∧
+    (st = "big" ↔ (block = true ∧ sizeBefore + el > cap ∧ el > cap)) ∧ st ≠ "inv" := by
+  have d1 : ("full" : String) ≠ "inv" := by decide
+  have d2 : ("full" : String) ≠ "big" := by decide
+  have d3 : ("inv" : String) ≠ "big" := by decide
+  unfold Check.refusalClause Check.expectedRefusal at h
+  simp only [if_true] at h
+  by_cases h3 : sizeBefore + el > cap
+  · cases block
+    · simp [h3] at h
+      subst h
+      exact ⟨by simp; omega, by simp [d2], d1⟩
+    · by_cases h2 : el > cap
+      · simp [h3, h2] at h
+        subst h
+        exact ⟨by simp [d2.symm], by simp; omega, d3.symm⟩
+      · simp [h3, h2] at h
+        obtain ⟨⟨a, b⟩, c⟩ := h
+        exact ⟨by simp [a], by simp [c]; intros; omega, b⟩
+  · simp [h3] at h
+    obtain ⟨⟨a, b⟩, c⟩ := h
+    exact ⟨by simp [a]; intros; omega, by simp [c]; intros; omega, b⟩
+
+theorem C02_check_blocked_sound (persistent : Bool) (size : Int) (none : Bool) (blocked : Nat)
+    (h : Check.blockedClause persistent size none blocked = true) (hb : blocked ≠ 0) :
+    (persistent = false → size ≠ 0) ∧ (persistent = true → none = false) := by
+  unfold Check.blockedClause at h
+  cases persistent <;> cases none <;> simp [hb] at h <;> simp [h]
+
+theorem C02_check_routing_sound (outcomes : List (Nat × Nat)) (p : Nat) (st : String)
+    (h : Check.routingClause outcomes p st = true) :
+    ∃ e, outcomes.lookup p = some e ∧ (e = 0 → st = "nil") ∧ (e ≠ 0 → st = s!"e{e}") := by
+  unfold Check.routingClause at h
+  cases hl : outcomes.lookup p with
+  | none => simp [hl] at h
+  | some e =>
+    cases e with
+    | zero => simp [hl] at h; exact ⟨0, rfl, fun _ => h, fun a => absurd rfl a⟩
+    | succ n => simp [hl] at h; exact ⟨n + 1, rfl, fun a => by omega, fun _ => h⟩
+
+theorem nodupB_sound (l : List Nat) (h : Check.nodupB l = true) : l.Nodup := by
+  induction l with
+  | nil => simp
+  | cons a t ih =>
+    simp only [Check.nodupB, Bool.and_eq_true, Bool.not_eq_true', List.contains_eq_mem, decide_eq_false_iff_not] at h
+    exact List.nodup_cons.mpr ⟨h.1, ih h.2⟩
+
+/-- the soak monitor: if it accepts an event log of a native-scheduler run then on that log nothing was handed over
+twice, everything handed over came from an Offer that was not refused (and was not zero-sized for the memory queue),
+every request whose Offer reported success was handed over, every sampled size was within `[0, cap]` and the size after
+the drain was 0 -/
+theorem C02_check_soak_sound (c : Check.SCfg) (evs : List Check.SEv) (h : Check.soakAll c evs = true) :
+    (Check.handedOf evs).Nodup ∧
+    (∀ id ∈ Check.handedOf evs, ∃ r ∈ Check.retsOf evs, r.1 = id ∧ Check.mayBeQueued c r = true) ∧
+    (∀ r ∈ Check.retsOf evs, Check.surelyQueued c r = true → r.1 ∈ Check.handedOf evs) ∧
+    (∀ n ∈ Check.sizesOf evs, 0 ≤ n ∧ n ≤ c.cap) ∧ (∀ n ∈ Check.finalsOf evs, n = 0) := by
+  simp only [Check.soakAll, Bool.and_eq_true] at h
+  obtain ⟨⟨⟨⟨⟨h1, h2⟩, h3⟩, h4⟩, _⟩, _⟩ := h
+  refine ⟨nodupB_sound _ h1, ?_, ?_, ?_, ?_⟩
+  · intro id hid
+    simp only [Check.soakOnlyAccepted, List.all_eq_true, List.any_eq_true] at h2
+    obtain ⟨r, hr, hrr⟩ := h2 id hid
+    simp only [Bool.and_eq_true, beq_iff_eq] at hrr
+    exact ⟨r, hr, hrr.1, hrr.2⟩
+  · intro r hr hs
+    simp only [Check.soakAllHanded, List.all_eq_true] at h3
+    have := h3 r hr
+    simpa [hs] using this
+  · intro n hn
+    simp only [Check.soakSizes, Bool.and_eq_true, List.all_eq_true] at h4
+    simpa using h4.1 n hn
+  · intro n hn
+    simp only [Check.soakSizes, Bool.and_eq_true, List.all_eq_true] at h4
+    simpa using h4.2 n hn
+
+/-! ## what the cond-level oracle `CMon` simulates is the LTS's own signal accounting -/
+
+/-- signal conservation in `cond.go` alone, for every schedule of Wait / Signal / cancellations (no Broadcast — the
+queues never broadcast on this cond) and every finite cover `L` of the goroutines that have called Wait:
+`#registered + #unconsumed signals = #goroutines inside Wait`.  This is the accounting `CMon` replays from the
+implementation's returns (`credits` = unconsumed signals, `inside`). -/
+theorem C02_cond_signal_conservation (ls : List CLabel) (s : CSt) (hl : ∀ l ∈ ls, l ≠ .broadcast) (hr : crun {} ls = some s)
+    (L : List Nat) (hn : L.Nodup) (hc : ∀ i, (s.ws i).ph ≠ .idle → i ∈ L) :
+    s.waiters.length + cntF creditW s.ws L = cntF insideW s.ws L := by
+  have h0 : Conserved ({} : CSt) := by
+    intro L _ _
+    have : ∀ L : List Nat, cntF creditW ({} : CSt).ws L = 0 ∧ cntF insideW ({} : CSt).ws L = 0 := by
+      intro L
+      induction L with
+      | nil => exact ⟨rfl, rfl⟩
+      | cons a t ih => simp [cntF, creditW, insideW, ih.1, ih.2]
+    simp [this L]
+  exact Conserved.run ls InvA.init h0 hl hr L hn hc
+
+/-- consequences used by `CMon`: a `Signal` is effective exactly when fewer signals than waiting goroutines are
+outstanding (`credits < inside`), and once the select exits have been taken (run-to-quiescence) every unconsumed
+signal belongs to a goroutine queued for the lock — so `credits ≤ #queued` on every conforming run, and a waiter
+asleep in the select while `credits > #queued` is a lost wake-up -/
+theorem C02_cond_credits_are_queued (ls : List CLabel) (s : CSt) (hl : ∀ l ∈ ls, l ≠ .broadcast) (hr : crun {} ls = some s)
+    (L : List Nat) (hn : L.Nodup) (hc : ∀ i, (s.ws i).ph ≠ .idle → i ∈ L) :
+    (s.waiters ≠ [] ↔ cntF creditW s.ws L < cntF insideW s.ws L) ∧
+    ((∀ i, cfire s (.wakeTok i) = none) → ∀ i, (s.ws i).sig = true → (s.ws i).ph = .wokenTok ∨ (s.ws i).ph = .wokenCtx) := by
+  have hcons := C02_cond_signal_conservation ls s hl hr L hn hc
+  have hA := InvA.run ls InvA.init hr
+  refine ⟨?_, ?_⟩
+  · constructor
+    · intro hne
+      have : 0 < s.waiters.length := List.length_pos_iff.mpr hne
+      omega
+    · intro hlt hnil
+      rw [hnil] at hcons
+      simp at hcons
+      omega
+  · intro hq i hs
+    rcases hA.sigPh i hs with a | a | a
+    · have := hq i
+      simp [cfire, a, hs] at this
+    · exact Or.inl a
+    · exact Or.inr a
 
 /-! ## non-vacuity: concrete schedules -/
 
